@@ -160,9 +160,6 @@ class Walker:
         for a in typ.attribute:
             if a.value.has_field("expression"):
                 sites.append(("attr:" + a.name.text, a.value.expression))
-        for p in typ.runtime_parameter:
-            # the parameter's own annotation, as a one-node tree
-            sites.append(("param:" + p.name.name.text, None, p))
         for f in typ.structure.field:
             fname = f.name.name.text
             if f.has_field("location"):
@@ -176,15 +173,11 @@ class Walker:
                 if a.value.has_field("expression"):
                     sites.append(("f:%s:attr:%s" % (fname, a.name.text), a.value.expression))
         out, skipped = [], []
-        for s in sites:
-            if len(s) == 3:
-                p = s[2]
-                out.append({"role": s[0], "t": {"k": "var", "n": p.name.name.text, "ty": self.ty(p.type),
-                                                 "cv": {"has": False, "v": 0, "huge": False, "exc": ""}}})
+        for role, e in sites:
+            if e is None or e.which_expression is None:
                 continue
-            role, e = s
-            if e is None or e.which_expression is None or self._is_trivial(e):
-                continue
+            if self._is_trivial(e) and role != "f:v:value":
+                continue  # literal offsets/sizes/conditions of the scaffolding fields
             try:
                 out.append({"role": role, "t": self.tree(e)})
             except Unsupported as u:
